@@ -261,7 +261,8 @@ pub fn run_solve(line: &str) -> String {
         k => panic!("bad entry {}", k),
     };
     selen::verif_hooks::set_agenda_seed(None);
-    out
+    let lp_ran = selen::verif_hooks::take_root_lp_ran();
+    if lp_ran { format!("{} lp=1", out) } else { out }
 }
 
 // ---- ctx / view (hook H1) ----
